@@ -349,7 +349,8 @@ class Driver:
         self.y = None if y is None else np.array(y, dtype=float)
         self.clf_peer = None if self.is_manager else ClfPeer(clf_spec, X, y)
         self.upd_params = set(inspect.signature(self.obj.update).parameters)
-        self.needs_clf = (not self.is_manager) and "clf" in inspect.signature(self.obj.query).parameters
+        self.query_params = set(inspect.signature(self.obj.query).parameters) if not self.is_manager else set()
+        self.needs_clf = (not self.is_manager) and "clf" in self.query_params
 
     # -- query on literal rows (strategy) or utilities (manager)
     def query_rows(self, rows, return_utilities=True):
@@ -364,6 +365,13 @@ class Driver:
                 kw["X"], kw["y"] = self.clf_peer.train_set()
                 if self.clf_peer.spec.get("fit_clf"):
                     kw["fit_clf"] = True
+                if self.clf_peer.spec.get("sw"):
+                    # per-sample weights of the training set (a function of the position only)
+                    kw["sample_weight"] = 0.5 + (np.arange(len(kw["y"])) % 3).astype(float)
+            if self.clf_peer.spec.get("uw") and "utility_weight" in self.query_params:
+                # one weight per candidate, a function of the candidate itself (so it follows the instance through
+                # every chunking and into every world)
+                kw["utility_weight"] = 0.5 + (np.abs(np.floor(rows[:, -1] * 1000.0)) % 7) / 7.0
         res = self.obj.query(rows, **kw)
         if return_utilities:
             return res[0], res[1]
@@ -511,6 +519,9 @@ def add_train_set(g, clf_spec, subject, d, n_classes):
         clf_spec["init_y"] = [float(i % n_classes) if i % 4 != 3 else float("nan") for i in range(k)]
         clf_spec["pass_Xy"] = True
         clf_spec["fit_clf"] = g.chance(0.5)
+        clf_spec["sw"] = g.chance(0.3)
+    if subject["cls"] == "StreamProbabilisticAL" and g.chance(0.3):
+        clf_spec["uw"] = True
 
 
 # --------------------------------------------------------------------------
